@@ -19,12 +19,13 @@ type RuleOp struct {
 	ID   uint32
 
 	// PDR
-	URRs   []uint32
-	NoURRs bool // (unused marker: URRs == nil means no URR ID IE)
-	QERs   []uint32
-	FAR    uint32
-	UEIP   string // UE IPv4 address inside the PDI ("" = none)
-	SrcIf  uint8
+	URRs     []uint32
+	NoURRs   bool // (unused marker: URRs == nil means no URR ID IE)
+	QERs     []uint32
+	FAR      uint32
+	UEIP     string // UE IPv4 address inside the PDI ("" = none)
+	SrcIf    uint8
+	PDIFirst bool // Create PDR: the PDI child is encoded before the PDR ID (child order is free in TS 29.244)
 	// FAR
 	Action      []byte // apply-action octets (nil = omit in updates; create default FORW)
 	TEID        uint32
@@ -64,6 +65,9 @@ func (o RuleOp) IE() *ie.IE {
 				c = append(c, ie.NewURRID(u))
 			}
 			if o.Verb == 'C' {
+				if o.PDIFirst && len(c) >= 3 {
+					c[0], c[2] = c[2], c[0] // PDR ID <-> PDI
+				}
 				return ie.NewCreatePDR(c...)
 			}
 			return ie.NewUpdatePDR(c...)
